@@ -127,6 +127,12 @@ func VerifC11Faults() {
 		// a different composition: the cache store is a keyvalue.FS over a plain key-value store that may reject a call
 		verifTag("store", "keyvalue-over-plain-store")
 		kvStore = pNewStore()
+		if verifChoice("store-copies", 2) == 1 {
+			// the key-value store keeps its own copy of a file's bytes (a remote store): after a rejected Set it
+			// holds what the last accepted one gave it - a shorter file
+			kvStore.ownCopy = true
+			verifTag("store-data", "own-copy")
+		}
 		kv, kerr := keyvalue.NewFS(kvStore)
 		verifAssert(kerr == nil, "keyvalue.NewFS")
 		cfs, err = cache.NewReadOnlyFS(source, kv, cache.ReadOnlyOptions{})
